@@ -1,5 +1,308 @@
-(* cmd_meta.ml — driver commands (filled in by the corresponding property's machinery) *)
+(* cmd_meta.ml — driver commands for C18 / C20 (metadata state machine, bincode codec,
+   Raft state-machine adapter).  Parsing and printing only; everything that decides
+   anything is the extracted model (Model.apply, snapshot, restore, dec_cluster, ...) or an
+   extracted acceptor (c18_ok, c20_snap_ok, cluster_eqb).
+
+   meta / meta_oc : same line protocol and output format as `dwh meta`
+                    (meta = wrapping arithmetic = release profile, meta_oc = overflow
+                    checks on = dev profile)
+   meta_canon     : rewrites every `snap:<hex>:..` token of an output line to the model's
+                    canonical (sorted) encoding of what the bytes decode to, so that outputs
+                    can be diffed although HashMap iteration order is arbitrary
+   accept_c18     : acceptor over the dumps of one output line
+   accept_c20     : acceptor over every `dump snap dump` triple of one output line
+   accept_c20_pair: `<out A> | <out B>`: B's case is A's with `S D` inserted after some D;
+                    everything else must be equal
+   known_c18      : is the case in the known class (sum overflow)?  computed from the case
+   adapter        : model-only run of the Raft adapter (sender ; receiver)
+   accept_c20_adapter : acceptor over an `adapter` output line *)
 open Model
 open Util
 
-let commands : (string * (string -> string)) list = []
+exception Bad of string
+
+let strict_unhex (s : string) : n list =
+  if s = "-" then [] else begin
+    let l = String.length s in
+    if l = 0 || l mod 2 <> 0 then raise (Bad "badcase");
+    String.iter (fun c -> match c with '0'..'9' | 'a'..'f' -> () | _ -> raise (Bad "badcase")) s;
+    bytes_of_hex s
+  end
+
+let u64max = n_of_dec "18446744073709551615"
+
+let num_arg (s : string) : n =
+  if s = "" then raise (Bad "badcase");
+  String.iter (fun c -> match c with '0'..'9' -> () | _ -> raise (Bad "badcase")) s;
+  (* strip leading zeros so that the length test below is meaningful *)
+  let i = ref 0 in
+  while !i < String.length s - 1 && s.[!i] = '0' do incr i done;
+  let t = String.sub s !i (String.length s - !i) in
+  if String.length t > 20 then raise (Bad "badcase");
+  let v = n_of_dec t in
+  if N.leb v u64max then v else raise (Bad "badcase")
+
+let text_arg (s : string) : n list =
+  let b = strict_unhex s in
+  match utf8_decode b with Some t -> t | None -> raise (Bad "badutf8")
+
+type item =
+  | ICmd of cmd
+  | IApply of n list
+  | ISnap
+  | IRestore of n list
+  | IDump
+  | IQuery of n list
+
+let parse_item (tok : string) : item =
+  match String.split_on_char ':' tok with
+  | ["C"; name; leader] -> let nm = text_arg name in let l = num_arg leader in ICmd (CreateTopic (nm, l))
+  | ["R"; name; leader; count] ->
+    let nm = text_arg name in let l = num_arg leader in let c = num_arg count in ICmd (RolloverTopic (nm, l, c))
+  | ["U"; node; addr] -> let id = num_arg node in let a = text_arg addr in ICmd (UpsertNode (id, a))
+  | ["A"; b] -> IApply (strict_unhex b)
+  | ["S"] -> ISnap
+  | ["X"; b] -> IRestore (strict_unhex b)
+  | ["D"] -> IDump
+  | ["Q"; name] -> IQuery (text_arg name)
+  | _ -> raise (Bad "badcase")
+
+(* first malformed item (left to right) decides, before anything is executed *)
+let parse_items (line : string) : item list =
+  let toks = List.filter (fun x -> x <> "") (String.split_on_char ' ' (String.concat " " (String.split_on_char '\t' line))) in
+  List.map parse_item toks
+
+let show_res = function
+  | MOk b -> "ok:" ^ hex_of_bytes b
+  | MErr -> "err"
+  | MPanic _ -> "panic"
+
+let show_pairs (l : (n * n) list) : string =
+  "[" ^ String.concat ";" (List.map (fun (k, v) -> dec_of_n k ^ ":" ^ dec_of_n v) l) ^ "]"
+
+let show_cluster (c : cluster) : string =
+  let topics = List.map (fun (name, t) ->
+    Printf.sprintf "%s=%s,%s,%s,%s,%s" (hex_of_str name) (dec_of_n t.t_cur) (dec_of_n t.t_leader)
+      (dec_of_n t.t_last) (show_pairs t.t_sealed) (show_pairs t.t_leaders)) c.c_topics in
+  let nodes = List.map (fun (id, a) -> dec_of_n id ^ ":" ^ hex_of_str a) c.c_nodes in
+  "state{" ^ String.concat "/" topics ^ "|" ^ String.concat "/" nodes ^ "}"
+
+let run_meta_gen (app : mstate -> n list -> mstate * res) (line : string) : string =
+  match (try Ok (parse_items line) with Bad s -> Error s) with
+  | Error s -> s
+  | Ok items ->
+    let st = ref m_init in
+    let out = List.map (fun it ->
+      match it with
+      | ICmd c ->
+        let bytes = enc_cmd c in
+        let (s', r) = app !st bytes in
+        st := s'; hex_of_bytes bytes ^ "=" ^ show_res r
+      | IApply bytes ->
+        let (s', r) = app !st bytes in
+        st := s'; show_res r
+      | ISnap ->
+        let (f, (snap, ok)) = snap_item !st in
+        st := f; "snap:" ^ hex_of_bytes snap ^ ":" ^ (if ok then "ok" else "err")
+      | IRestore bytes ->
+        let (s', ok) = restore !st bytes in
+        st := s'; "restore:" ^ (if ok then "ok" else "err")
+      | IDump -> show_cluster (visible !st)
+      | IQuery name ->
+        (match get_topic_state !st name with
+         | None -> "q:none"
+         | Some t -> Printf.sprintf "q:%s,%s,%s" (dec_of_n t.t_cur) (dec_of_n t.t_leader) (dec_of_n t.t_last))) items in
+    String.concat " " out
+
+let run_meta (oc : bool) : string -> string = run_meta_gen (apply oc)
+(* metadata.rs with PROPOSED_FIX.diff applied (checked_add, Err instead of overflow) *)
+let run_meta_fx : string -> string = run_meta_gen apply_fx
+
+(* ---------- parsing output lines back ---------- *)
+let starts_with p s = String.length s >= String.length p && String.sub s 0 (String.length p) = p
+
+let parse_pairs (s : string) : (n * n) list =
+  (* "[k:v;k:v]" *)
+  let l = String.length s in
+  if l < 2 || s.[0] <> '[' || s.[l-1] <> ']' then failwith "bad pairs";
+  let body = String.sub s 1 (l - 2) in
+  if body = "" then [] else
+  List.map (fun kv -> match String.split_on_char ':' kv with
+    | [k; v] -> (n_of_dec k, n_of_dec v)
+    | _ -> failwith "bad pair") (String.split_on_char ';' body)
+
+let str_of_hex_exn (h : string) : n list =
+  match str_of_hex h with Some s -> s | None -> failwith "bad utf8 in dump"
+
+let parse_cluster (tok : string) : cluster =
+  (* format: the word state, then topics and nodes in braces separated by a bar *)
+  let l = String.length tok in
+  if not (starts_with "state{" tok) || tok.[l-1] <> '}' then failwith "bad dump";
+  let body = String.sub tok 6 (l - 7) in
+  match String.split_on_char '|' body with
+  | [ts; ns] ->
+    let topics = if ts = "" then [] else List.map (fun t ->
+      match String.split_on_char '=' t with
+      | [name; rest] ->
+        (match String.split_on_char ',' rest with
+         | [cur; leader; last; sealed; leaders] ->
+           (str_of_hex_exn name,
+            { t_cur = n_of_dec cur; t_leader = n_of_dec leader; t_last = n_of_dec last;
+              t_sealed = parse_pairs sealed; t_leaders = parse_pairs leaders })
+         | _ -> failwith "bad topic")
+      | _ -> failwith "bad topic") (String.split_on_char '/' ts) in
+    let nodes = if ns = "" then [] else List.map (fun x ->
+      match String.split_on_char ':' x with
+      | [id; a] -> (n_of_dec id, str_of_hex_exn a)
+      | _ -> failwith "bad node") (String.split_on_char '/' ns) in
+    { c_topics = topics; c_nodes = nodes }
+  | _ -> failwith "bad dump"
+
+let tokens (line : string) : string list = List.filter (fun x -> x <> "") (String.split_on_char ' ' line)
+
+let parse_snap (tok : string) : (n list * bool) =
+  match String.split_on_char ':' tok with
+  | ["snap"; h; ok] -> (bytes_of_hex h, ok = "ok")
+  | _ -> failwith "bad snap token"
+
+let cmd_meta_canon (line : string) : string =
+  String.concat " " (List.map (fun t ->
+    if starts_with "snap:" t then
+      (try
+        let (b, ok) = parse_snap t in
+        (match dec_cluster b with
+         | Some (c, []) -> "snap:" ^ hex_of_bytes (enc_cluster c) ^ ":" ^ (if ok then "ok" else "err")
+         | _ -> t)
+      with _ -> t)
+    else t) (tokens line))
+
+let is_panic_tok (t : string) : bool =
+  t = "panic" || (String.length t > 6 && String.sub t (String.length t - 6) 6 = "=panic")
+
+let cmd_accept_c18 (line : string) : string =
+  try
+    if List.exists is_panic_tok (tokens line) then "REJECT panic" else
+    let dumps = List.map parse_cluster (List.filter (starts_with "state{") (tokens line)) in
+    if c18_ok dumps then "ok" else "REJECT"
+  with Failure m -> "REJECT unparsable: " ^ m
+
+let cmd_accept_c20 (line : string) : string =
+  try
+    let rec go (ts : string list) (n : int) : string =
+      match ts with
+      | d1 :: s :: d2 :: rest when starts_with "state{" d1 && starts_with "snap:" s ->
+        if not (starts_with "state{" d2) then "REJECT no dump after snap" else begin
+          let (b, ok) = parse_snap s in
+          if c20_snap_ok (parse_cluster d1) b ok (parse_cluster d2) then go (d2 :: rest) (n + 1)
+          else "REJECT"
+        end
+      | s :: _ when starts_with "snap:" s -> "REJECT snap without dump before"
+      | _ :: rest -> go rest n
+      | [] -> "ok " ^ string_of_int n in
+    go (tokens line) 0
+  with Failure m -> "REJECT unparsable: " ^ m
+
+(* strip every `snap:..` token together with the dump that follows it *)
+let rec strip_snaps = function
+  | s :: d :: rest when starts_with "snap:" s && starts_with "state{" d -> strip_snaps rest
+  | x :: rest -> x :: strip_snaps rest
+  | [] -> []
+
+let cmd_accept_c20_pair (line : string) : string =
+  begin
+    let pat = " || " in
+    let n = String.length line and m = String.length pat in
+    let rec find i = if i + m > n then -1 else if String.sub line i m = pat then i else find (i + 1) in
+    let i = find 0 in
+    if i < 0 then "REJECT no separator" else
+    let a = tokens (String.sub line 0 i) and b = strip_snaps (tokens (String.sub line (i + m) (n - i - m))) in
+    try
+      let same x y =
+        if starts_with "state{" x && starts_with "state{" y then cluster_eqb (parse_cluster x) (parse_cluster y)
+        else x = y in
+      if List.length a = List.length b && List.for_all2 same a b then "ok" else "REJECT"
+    with Failure msg -> "REJECT unparsable: " ^ msg
+  end
+
+(* the apply inputs of a case, for the known-class predicate *)
+let cmd_known_c18 (line : string) : string =
+  match (try Ok (parse_items line) with Bad s -> Error s) with
+  | Error s -> s
+  | Ok items ->
+    (* S (snapshot -> fresh restore) does not change what is applied; X replaces the state *)
+    let pure = List.for_all (function ICmd _ | IApply _ | IDump | IQuery _ | ISnap -> true | _ -> false) items in
+    let inputs = List.filter_map (function ICmd c -> Some (enc_cmd c) | IApply b -> Some b | _ -> None) items in
+    if not pure then "n/a" else if sum_overflow inputs then "sum_overflow" else "outside"
+
+(* ---------- Raft adapter (model only) ---------- *)
+let entries_of (items : item list) : (n * payload) list =
+  List.mapi (fun i it ->
+    let idx = n_of_int (i + 1) in
+    match it with
+    | ICmd c -> (idx, Normal (enc_cmd c))
+    | IApply b -> (idx, Normal b)
+    | _ -> (idx, Blank)) items
+
+let show_last = function None -> "none" | Some i -> dec_of_n i
+
+(* `<sender items> ; <receiver items>`: both start fresh and apply their items as Normal log
+   entries 1..n (D/Q/S/X stand for Blank entries); the sender builds a snapshot, the
+   receiver installs it. *)
+let run_adapter (oc : bool) (line : string) : string =
+  match String.split_on_char ';' line with
+  | [sl; rl] ->
+    (match (try Ok (parse_items sl, parse_items rl) with Bad s -> Error s) with
+     | Error s -> s
+     | Ok (si, ri) ->
+       let (snd_a, _) = a_apply oc a_init (entries_of si) in
+       let (rcv_a, _) = a_apply oc a_init (entries_of ri) in
+       let (snd_a, snap) = build_snapshot snd_a in
+       let (rcv_a', ok) = install_snapshot rcv_a snap in
+       Printf.sprintf "snapdata=%s install=%s sender=%s receiver_before=%s receiver=%s sender_last=%s receiver_last=%s"
+         (hex_of_bytes (snd snap)) (if ok then "ok" else "err")
+         (show_cluster (a_visible snd_a)) (show_cluster (a_visible rcv_a)) (show_cluster (a_visible rcv_a'))
+         (show_last snd_a.a_last) (show_last rcv_a'.a_last))
+  | _ -> "badcase"
+
+let field (name : string) (line : string) : string =
+  let p = name ^ "=" in
+  match List.filter (starts_with p) (tokens line) with
+  | t :: _ -> String.sub t (String.length p) (String.length t - String.length p)
+  | [] -> failwith ("missing " ^ name)
+
+(* the receiver must end up with exactly the sender's application metadata *)
+let cmd_accept_c20_adapter (line : string) : string =
+  try
+    let s = parse_cluster (field "sender" line) and r = parse_cluster (field "receiver" line) in
+    if cluster_eqb s r then "ok" else "REJECT"
+  with Failure m -> "REJECT unparsable: " ^ m
+
+(* canonical form of arbitrary state bytes: decode, print, re-encode *)
+let cmd_decode_state (line : string) : string =
+  match (try Some (strict_unhex line) with Bad _ -> None) with
+  | None -> "badcase"
+  | Some b ->
+    (match dec_cluster b with
+     | None -> "undecodable"
+     | Some (c, rest) -> show_cluster c ^ " rest=" ^ string_of_int (List.length rest) ^ " canon=" ^ hex_of_bytes (enc_cluster c))
+
+(* bytes of a state given as a dump, its maps written in the order given (any listing,
+   duplicates allowed): the model's encoder applied to the listing as it stands *)
+let cmd_encode_state (line : string) : string =
+  try hex_of_bytes (enc_cluster (parse_cluster line)) with Failure m -> "badcase"
+
+let commands : (string * (string -> string)) list = [
+  "encode_state", cmd_encode_state;
+  "meta", run_meta false;
+  "meta_oc", run_meta true;
+  "meta_fx", run_meta_fx;
+  "meta_canon", cmd_meta_canon;
+  "accept_c18", cmd_accept_c18;
+  "accept_c20", cmd_accept_c20;
+  "accept_c20_pair", cmd_accept_c20_pair;
+  "known_c18", cmd_known_c18;
+  "adapter", run_adapter false;
+  "adapter_oc", run_adapter true;
+  "accept_c20_adapter", cmd_accept_c20_adapter;
+  "decode_state", cmd_decode_state;
+]
